@@ -161,7 +161,7 @@ func PeerMain() {
 // ---- history model: who holds the directory ----
 
 type lockIn struct {
-	kind  string // acquire | load-ok | load-fail | inuse | close | damage | repair
+	kind  string // acquire | load-ok | load-fail | release-failed | inuse | close | damage | repair
 	party int
 }
 
@@ -188,8 +188,14 @@ var lockModel = porcupine.Model{
 			}
 			s.holder = in.party
 			return true, s
-		case "load-fail": // a failing load releases the lock again
+		case "load-fail": // the load fails at some instant (it saw the damage) ...
 			if s.holder != -in.party || !s.damaged {
+				return false, s
+			}
+			s.holder = -(in.party + 1000)
+			return true, s
+		case "release-failed": // ... and the lock is released at a later instant of the same call
+			if s.holder != -(in.party + 1000) {
 				return false, s
 			}
 			s.holder = 0
@@ -493,6 +499,11 @@ func (r *Runner) lockPartyMain(p *lockParty, ops []Op, isPeer bool, peer *peerPr
 					me := vrt.CurTask()
 					for j := jstart; j < len(r.FS.Journal); j++ {
 						e := &r.FS.Journal[j]
+						// creating the (still missing) directory or the lock file itself while racing for the lock is not
+						// touching the contents of somebody's open database
+						if e.Kind == vos.KMkdir || strings.HasSuffix(e.Path, ".lock") {
+							continue
+						}
 						if e.Task == me && e.Kind.Mutating() && e.Kind != vos.KImport {
 							p.fail(prop, "rejected-open-touched-directory", "", "a rejected Open performed %s", e.String())
 							return
@@ -501,7 +512,7 @@ func (r *Runner) lockPartyMain(p *lockParty, ops []Op, isPeer bool, peer *peerPr
 					p.cnt["rejected_open_dir_unchanged"]++
 				}
 			default:
-				p.evs = append(p.evs, lockEv{p.id, "acquire", call, ret, ""}, lockEv{p.id, "load-fail", call, ret, detail})
+				p.evs = append(p.evs, lockEv{p.id, "acquire", call, ret, ""}, lockEv{p.id, "load-fail", call, ret, detail}, lockEv{p.id, "release-failed", call, ret, ""})
 				p.cnt["opens_failed_other"]++
 			}
 		case "close":
